@@ -483,6 +483,25 @@ func c01Run(c *core.Ctx) {
 		}
 	}
 
+	// ---- family 5: every byte-string constant of the sources, alone, cut at
+	// every length, and padded with each filler to every guard length
+	for _, lit := range literals(c) {
+		if !c.Next() || c.Expired() {
+			continue
+		}
+		for k := 1; k <= len(lit); k++ {
+			hdr(lit[:k], "f5:source-literal")
+		}
+		for _, g := range []int{16, 24, 36, 44, 68, 112, 132, 512, 520, 1153} {
+			for _, f := range []byte{0x00, 0xFF, ' '} {
+				h := bytesOf(f, g)
+				copy(h, lit)
+				hdr(h, "f5:source-literal-padded")
+			}
+		}
+		apis(lit, []uint32{0, 1, uint32(len(lit))}, []int{0, 1}, "f5:source-literal")
+	}
+
 	// ---- family 4: single-byte mutation sweep of witnesses <= 600
 	for _, w := range W {
 		n := len(w.Data)
